@@ -139,6 +139,7 @@ def run(tier, only=None):
     per = {}
     for sp in S.ALL:
         ds = sp.instances(tier, random.Random(rng.random()))
+        ds += S.derive_instances(sp, random.Random(rng.random()), tier)
         for d in ds:
             d["puzzle"] = sp.module
             d["name"] = sp.name_of(d)
